@@ -268,7 +268,41 @@ fn jobs(tier: Tier) -> Vec<(&'static str, u64, u64)> {
         ("mut", *tables().prefix.last().unwrap(), 1 << 17),
         ("nest8", nd * NEST_PATTERNS as u64, 64),
         ("nest2", nd * NEST_PATTERNS as u64, 64),
+        ("long", long_filters().len() as u64, 1 << 13),
     ]
+}
+
+/// long tokens of the scalar grammar (shared with C03) as comparison literals, long identifiers,
+/// long paths, long and/or chains
+fn long_filters() -> &'static Vec<Vec<u8>> {
+    static L: std::sync::OnceLock<Vec<Vec<u8>>> = std::sync::OnceLock::new();
+    L.get_or_init(|| {
+        let mut out: Vec<Vec<u8>> = vec![];
+        for t in super::c03::long_tokens() {
+            if t.len() > 1100 {
+                continue;
+            }
+            let mut v = b"a == ".to_vec();
+            v.extend_from_slice(&t);
+            out.push(v.clone());
+            v.extend_from_slice(b" and b");
+            out.push(v);
+            out.push(t);
+        }
+        for n in (1..=72usize).chain([127, 128, 129, 255, 256, 257, 1000]) {
+            let name = "a".repeat(n);
+            out.push(name.clone().into_bytes());
+            out.push(format!("not {name} and {name}B == 1").into_bytes());
+            out.push(format!("{}b", "a->".repeat(n)).into_bytes());
+            out.push(format!("{}b == 5", "aB1_->".repeat(n)).into_bytes());
+            out.push(format!("a{}", " and a".repeat(n)).into_bytes());
+            out.push(format!("a{}", " or a and b".repeat(n)).into_bytes());
+            out.push(format!("^{name}").into_bytes());
+            out.push(format!("{name}? ^{name} @{name}").into_bytes());
+            out.push(format!("a *== @{name}").into_bytes());
+        }
+        out
+    })
 }
 
 fn job_input(job: &str, ord: u64) -> Vec<u8> {
@@ -290,6 +324,7 @@ fn job_input(job: &str, ord: u64) -> Vec<u8> {
             let depths = nest_depths();
             nest_doc((ord as usize) / depths.len(), depths[(ord as usize) % depths.len()])
         }
+        "long" => long_filters()[ord as usize].clone(),
         other => crate::engine::machinery(&format!("C09: unknown job {other}")),
     }
 }
@@ -359,7 +394,7 @@ pub fn child_params(job: &str) -> (u64, u64, usize) {
 
 pub fn run(tier: Tier) -> i32 {
     let mut run = Run::new("C09", tier, "fault_enumeration");
-    run.rule = "inputs: every sequence of <= 4/5 tokens over a 30-token alphabet (tags, keywords, every operator, literals of several kinds, stray '-' '=' '?') joined with and without spaces; every byte string <= 2/3 over all bytes; every prefix, substitution, deletion and insertion (23-byte alphabet) of ~280 printed filters; 8 nesting patterns ('(' , 'not ', 'a and ', 'a->', mixed) at every depth 1..256, 2^k(+1) up to 131072 and 10^5 on 8 MiB and 2 MiB stacks. Every input is parsed; every accepted filter is evaluated on 17 records with a resolver whose refs form 1- and 2-cycles over a namespace built from tests/defs/defs.zinc, printed and re-parsed. Oracle: returns — no panic, abort, stack overflow (exit status) or hang (6 s watchdog). non-trivial = distinct input of >= 2 bytes".into();
+    run.rule = "inputs: every sequence of <= 4/5 tokens over a 30-token alphabet (tags, keywords, every operator, literals of several kinds, stray '-' '=' '?') joined with and without spaces; every byte string <= 2/3 over all bytes; every prefix, substitution, deletion and insertion (23-byte alphabet) of ~280 printed filters; long tokens (the 24 token kinds of C03 with bodies of every length 1..72, 100, 127..129, 255..257, 300, 1000 as comparison literals; identifiers, paths, and/or chains and symbols of those lengths; all sequences of <= 3 \\uXXXX escapes incl. every surrogate combination); 8 nesting patterns ('(' , 'not ', 'a and ', 'a->', mixed) at every depth 1..256, 2^k(+1) up to 131072 and 10^5 on 8 MiB and 2 MiB stacks. Every input is parsed; every accepted filter is evaluated on 17 records with a resolver whose refs form 1- and 2-cycles over a namespace built from tests/defs/defs.zinc, printed and re-parsed. Oracle: returns — no panic, abort, stack overflow (exit status) or hang (6 s watchdog). non-trivial = distinct input of >= 2 bytes".into();
     run.assume("a case that does not finish within 6 s is a hang; crashes and hangs are confirmed in a fresh single-step child");
     crate::engine::quiet_panics();
     for (name, n, chunk) in jobs(tier) {
